@@ -126,7 +126,7 @@ Print Assumptions refund_exactly_once.
 Theorem budget_identity_step :
   forall (s : state) (st : step) (pid : Z) (p : pool),
     reachable s -> valid_step st -> get pid (pools s) = Some p ->
-    exists p' iv tp z,
+    exists (p' : pool) (iv : Z) (tp : denom -> Z) (z : bool),
       get pid (pools (step_state s st)) = Some p'
       /\ (iv = 0 \/ iv = release_iv (height s) p)
       /\ ((forall d, rule_sum r_total (p_rules p') d = rule_sum r_total (p_rules p) d + rule_sum (fun r => tp (r_denom r)) (p_rules p) d)
